@@ -16,6 +16,7 @@ ID = "C18"
 GUARD_KERNELS = True
 SHRINK_LISTS = ("ops",)
 SHRINK_MIN = {"nsblk": 4, "nsub": 1, "nchans": 1, "gulp": 1, "nsamps": 1}
+SHRINK_SIMPLE = {"earlier_same_path": False}
 LAYOUTS = [("AABBCRCI", 4), ("AABBCRCI", 4), ("STOKE", 4), ("STOKE", 4), ("AABB", 2), ("INTEN", 1)]
 
 
@@ -52,7 +53,7 @@ def generate(rng, tier) -> dict:
             ops.append({"op": rng.choice(["collapse", "bandpass"]), "gulp": rng.choice([3, nsblk, nsblk + 1, N, rng.randint(1, N)])})
     return {"nbits": nbits, "nsblk": nsblk, "nsub": nsub, "nchans": nchans, "pol": pol, "npol": npol,
             "ascending": rng.random() < 0.4, "scl": rng.random() < 0.6, "zero_off": rng.choice([0.0, 0.0, 2.0]),
-            "dseed": rng.randrange(1 << 30), "ops": ops}
+            "dseed": rng.randrange(1 << 30), "ops": ops, "earlier_same_path": rng.random() < 0.25}
 
 
 def fixup(sc):
@@ -151,6 +152,23 @@ def execute(sc, ctx) -> None:
     from sigpyproc.readers import FilReader, PFITSReader
 
     path = os.path.join(ctx.root, "in.sf")
+    if sc.get("earlier_same_path"):
+        # the path held ANOTHER observation before (same geometry, other channel order / zero level / data),
+        # which was opened, read and dropped in this process: nothing of it may survive in the library
+        prev = {**sc, "ascending": not sc["ascending"], "zero_off": 3.5 if sc["zero_off"] == 0 else 0.0,
+                "dseed": int(sc["dseed"]) + 1, "scl": True}
+        write_psrfits(path, prev)
+        with warnings.catch_warnings():
+            warnings.simplefilter("ignore")
+            try:
+                r0 = PFITSReader(path)
+                r0.read_block(0, sc["nsblk"])
+                r0._fitsfile._fits.close()
+                del r0
+            except Exception as e:  # noqa: BLE001 - context only
+                ctx.observations["earlier-file-unreadable:" + type(e).__name__] += 1
+        os.unlink(path)
+        ctx.probe("earlier-file-at-the-same-path")
     model, meta = write_psrfits(path, sc)
     N, nchans, nsblk = meta["N"], sc["nchans"], sc["nsblk"]
     info0 = {"nsblk": nsblk, "nsub": sc["nsub"], "nchans": nchans, "nbits": sc["nbits"], "pol": sc["pol"], "ascending": sc["ascending"]}
